@@ -56,6 +56,9 @@ int es_pub_export(int ci, int le, int compress, int inf, const es_in *x, const e
 /* ecdsa_pub_key_import_be / _le into a point initialised like the in-tree callers do
  * (ec_point_init(&Q, curve->m)); on rc 0 returns the point: *inf, x_be[bytes], y_be[bytes].
  * xy_ok = 0 when a coordinate does not fit into bytes octets. */
+/* the point object handed to the next es_pub_import() call is one that received the one-octet encoding of the neutral element before (a caller that
+ * re-uses its ec_point_t for successive imports) */
+void es_pub_import_reuse_next(int on);
 int es_pub_import(int ci, int le, const es_in *pkx, const es_in *pky, size_t pk_size,
     int *inf, uint8_t *x_be, uint8_t *y_be, int *xy_ok);
 /* ecdsa_key_gen_be / _le / ecdsa_key_gen (ES_BN: rnd number in, priv = d, pkx/pky = affine Q, *pk_size = 1 if infinity) */
